@@ -276,6 +276,18 @@ pub fn pair_scn(tier: &str, stable: Option<u64>) -> PairScn {
     PairScn { property: "C15".into(), stable_amp: stable, roots, fee_alphabet: vec![], probe: Probe::Spread, reduced: true }
 }
 
+/// three-asset pool (two native assets and a cw20, so that both the direct message and the Send hook carry limits)
+fn trio_scn() -> crate::scn_trio::TrioScn {
+    let e9 = 10u128.pow(9);
+    crate::scn_trio::TrioScn {
+        property: "C15".into(),
+        roots: vec![crate::scn_trio::TrioRoot { label: "cw20=true/amp100/lopsided".into(), with_cw20: true, amp: 100, fees: TYPICAL, first: [e9, 3 * e9, 2 * e9], pre_swaps: true, mid_ramp_to: None }],
+        fee_alphabet: vec![],
+        probe: Probe::Spread,
+        with_ramps: false,
+    }
+}
+
 pub fn run(tier: &str, seed: u64) -> i32 {
     let mut ev = Evidence::new("C15", tier, seed);
     ev.assumptions = vec![
@@ -296,6 +308,9 @@ pub fn run(tier: &str, seed: u64) -> i32 {
     }
     if ev.violations.is_empty() {
         ev.add_report(explore(&pair_scn(tier, Some(100)), &cfg));
+    }
+    if ev.violations.is_empty() {
+        ev.add_report(explore(&trio_scn(), &cfg));
     }
     if ev.violations.is_empty() {
         ev.add_report(explore(&RouterScn { property: "C15".into(), fees: TYPICAL }, &cfg));
@@ -324,6 +339,9 @@ pub fn replay(doc: &Value) -> bool {
         if name == s.name() {
             return replay_trace(&s, doc);
         }
+    }
+    if name == trio_scn().name() {
+        return replay_trace(&trio_scn(), doc);
     }
     false
 }
